@@ -1,5 +1,5 @@
 (* GENERATED on every run by harness/C14.py translate() with translate/pybuffer2coq.py from
-   /tmp/mt-8810-8911/psiaudio/buffer.py (class SignalBuffer) - do not edit.  One definition per method, statement by statement;
+   /repo/psiaudio/buffer.py (class SignalBuffer) - do not edit.  One definition per method, statement by statement;
    record fields: cap = _buffer_samples, S = _samples, ilb = _ilb, buf = _buffer (one channel), fillv = _fill_value;
    times in sample units.  Tied to the hand-written model by coq/Buffer/ProofsTie.v. *)
 From PV Require Import Common.PySlice Buffer.Model Buffer.TieLib.
@@ -9,11 +9,11 @@ Local Open Scope Z_scope.
 Definition g_samples_to_index (self : bstate) (v_i : Z) : Z :=
   ((v_i - (S self)) + (cap self)).
 
-(* get_samples_lb, line 237 *)
+(* get_samples_lb, line 235 *)
 Definition g_get_samples_lb (self : bstate) : Z :=
   (((S self) - (cap self)) + (ilb self)).
 
-(* get_samples_ub, line 241 *)
+(* get_samples_ub, line 239 *)
 Definition g_get_samples_ub (self : bstate) : Z :=
   (S self).
 
@@ -52,7 +52,7 @@ Definition g_append_data (self : bstate) (v_data : list Z) : mres :=
 
 (* _invalidate, line 172 *)
 Definition g__invalidate (self : bstate) (v_i : Z) : mres :=
-  if (v_i <=? 0%Z) then
+  if (v_i <=? (ilb self)) then
     let self := set_buf self (py_set_const None None (fillv self) (buf self)) in
     let self := set_ilb self (cap self) in
     MOk self
@@ -82,7 +82,7 @@ Definition g_get_range_samples (self : bstate) (v_lb : option Z) (v_ub : option 
     else
       Ret (py_slice (Some v_ilb) (Some v_iub) (buf self)).
 
-(* invalidate_samples, line 190 *)
+(* invalidate_samples, line 188 *)
 Definition g_invalidate_samples (self : bstate) (v_i : Z) : mres :=
   if (v_i >=? (S self)) then
     MOk self
@@ -106,12 +106,12 @@ Definition g_get_range_filled (self : bstate) (v_lb : Z) (v_ub : Z) (v_fill_valu
   rbind (g_get_range_samples self (Some v_elb) (Some v_eub)) (fun v_data =>
   (np_pad v_data v_lpadding v_rpadding v_fill_value)).
 
-(* invalidate, line 186 *)
+(* invalidate, line 184 *)
 Definition g_invalidate (self : bstate) (v_t : Z) : mres :=
   mseq (g_invalidate_samples self v_t) (fun self =>
   MOk self).
 
-(* get_latest, line 199 *)
+(* get_latest, line 197 *)
 Definition g_get_latest (self : bstate) (v_lb : Z) (v_ub : Z) (v_fill_value : option Z) : res (list Z) :=
   let v_lb := (v_lb + (g_get_samples_ub self)) in
   let v_ub := (v_ub + (g_get_samples_ub self)) in
@@ -350,7 +350,7 @@ Example selftest_71 :
   g_append_data {| cap := 2; S := 0; ilb := 2; buf := [(-1); (-1)]; fillv := (-1) |} [500; 501; 502; 503] = MOk {| cap := 2; S := 4; ilb := 0; buf := [502; 503]; fillv := (-1) |}.
 Proof. vm_compute. reflexivity. Qed.
 Example selftest_72 :
-  g__invalidate {| cap := 2; S := 0; ilb := 2; buf := [(-1); (-1)]; fillv := (-1) |} 1 = MOk {| cap := 2; S := 0; ilb := 3; buf := [(-1); (-1)]; fillv := (-1) |}.
+  g__invalidate {| cap := 2; S := 0; ilb := 2; buf := [(-1); (-1)]; fillv := (-1) |} 1 = MOk {| cap := 2; S := 0; ilb := 2; buf := [(-1); (-1)]; fillv := (-1) |}.
 Proof. vm_compute. reflexivity. Qed.
 Example selftest_73 :
   g_invalidate_samples {| cap := 2; S := 0; ilb := 2; buf := [(-1); (-1)]; fillv := (-1) |} (-2) = MOk {| cap := 2; S := (-2); ilb := 2; buf := [(-1); (-1)]; fillv := (-1) |}.
@@ -536,286 +536,286 @@ Example selftest_133 :
   g_init 2 7 = MOk {| cap := 2; S := 0; ilb := 2; buf := [7; 7]; fillv := 7 |}.
 Proof. vm_compute. reflexivity. Qed.
 Example selftest_134 :
-  g_samples_to_index {| cap := 2; S := (-1); ilb := 3; buf := [7; 7]; fillv := 7 |} (-1) = 2.
+  g_samples_to_index {| cap := 2; S := (-1); ilb := 2; buf := [7; 7]; fillv := 7 |} (-2) = 1.
 Proof. vm_compute. reflexivity. Qed.
 Example selftest_135 :
-  g_time_to_index {| cap := 2; S := (-1); ilb := 3; buf := [7; 7]; fillv := 7 |} (-1) = 2.
+  g_time_to_index {| cap := 2; S := (-1); ilb := 2; buf := [7; 7]; fillv := 7 |} (-2) = 1.
 Proof. vm_compute. reflexivity. Qed.
 Example selftest_136 :
-  g_get_samples_lb {| cap := 2; S := (-1); ilb := 3; buf := [7; 7]; fillv := 7 |} = 0.
+  g_get_samples_lb {| cap := 2; S := (-1); ilb := 2; buf := [7; 7]; fillv := 7 |} = (-1).
 Proof. vm_compute. reflexivity. Qed.
 Example selftest_137 :
-  g_get_samples_ub {| cap := 2; S := (-1); ilb := 3; buf := [7; 7]; fillv := 7 |} = (-1).
+  g_get_samples_ub {| cap := 2; S := (-1); ilb := 2; buf := [7; 7]; fillv := 7 |} = (-1).
 Proof. vm_compute. reflexivity. Qed.
 Example selftest_138 :
-  g_get_range_samples {| cap := 2; S := (-1); ilb := 3; buf := [7; 7]; fillv := 7 |} (Some (-1)) (Some (-1)) = Raise EIndexError.
+  g_get_range_samples {| cap := 2; S := (-1); ilb := 2; buf := [7; 7]; fillv := 7 |} (Some (-2)) (Some 1) = Raise EIndexError.
 Proof. vm_compute. reflexivity. Qed.
 Example selftest_139 :
-  g_get_range_samples {| cap := 2; S := (-1); ilb := 3; buf := [7; 7]; fillv := 7 |} None (Some (-1)) = Ret [].
+  g_get_range_samples {| cap := 2; S := (-1); ilb := 2; buf := [7; 7]; fillv := 7 |} None (Some 1) = Raise EIndexError.
 Proof. vm_compute. reflexivity. Qed.
 Example selftest_140 :
-  g_get_range_samples {| cap := 2; S := (-1); ilb := 3; buf := [7; 7]; fillv := 7 |} (Some (-1)) None = Raise EIndexError.
+  g_get_range_samples {| cap := 2; S := (-1); ilb := 2; buf := [7; 7]; fillv := 7 |} (Some (-2)) None = Raise EIndexError.
 Proof. vm_compute. reflexivity. Qed.
 Example selftest_141 :
-  g_get_range_samples {| cap := 2; S := (-1); ilb := 3; buf := [7; 7]; fillv := 7 |} None None = Ret [].
+  g_get_range_samples {| cap := 2; S := (-1); ilb := 2; buf := [7; 7]; fillv := 7 |} None None = Ret [].
 Proof. vm_compute. reflexivity. Qed.
 Example selftest_142 :
-  g_get_range_filled {| cap := 2; S := (-1); ilb := 3; buf := [7; 7]; fillv := 7 |} (-1) (-1) 9 = Raise EIndexError.
+  g_get_range_filled {| cap := 2; S := (-1); ilb := 2; buf := [7; 7]; fillv := 7 |} (-2) 1 9 = Ret [9; 9; 9].
 Proof. vm_compute. reflexivity. Qed.
 Example selftest_143 :
-  g_get_latest {| cap := 2; S := (-1); ilb := 3; buf := [7; 7]; fillv := 7 |} 0 0 None = Raise EIndexError.
+  g_get_latest {| cap := 2; S := (-1); ilb := 2; buf := [7; 7]; fillv := 7 |} (-1) 2 None = Raise EIndexError.
 Proof. vm_compute. reflexivity. Qed.
 Example selftest_144 :
-  g_get_latest {| cap := 2; S := (-1); ilb := 3; buf := [7; 7]; fillv := 7 |} 0 0 (Some 9) = Raise EIndexError.
+  g_get_latest {| cap := 2; S := (-1); ilb := 2; buf := [7; 7]; fillv := 7 |} (-1) 2 (Some 9) = Ret [9; 9; 9].
 Proof. vm_compute. reflexivity. Qed.
 Example selftest_145 :
-  g_append_data {| cap := 2; S := (-1); ilb := 3; buf := [7; 7]; fillv := 7 |} [] = MOk {| cap := 2; S := (-1); ilb := 3; buf := [7; 7]; fillv := 7 |}.
+  g_append_data {| cap := 2; S := (-1); ilb := 2; buf := [7; 7]; fillv := 7 |} [] = MOk {| cap := 2; S := (-1); ilb := 2; buf := [7; 7]; fillv := 7 |}.
 Proof. vm_compute. reflexivity. Qed.
 Example selftest_146 :
-  g_append_data {| cap := 2; S := (-1); ilb := 3; buf := [7; 7]; fillv := 7 |} [500] = MOk {| cap := 2; S := 0; ilb := 2; buf := [7; 500]; fillv := 7 |}.
+  g_append_data {| cap := 2; S := (-1); ilb := 2; buf := [7; 7]; fillv := 7 |} [500] = MOk {| cap := 2; S := 0; ilb := 1; buf := [7; 500]; fillv := 7 |}.
 Proof. vm_compute. reflexivity. Qed.
 Example selftest_147 :
-  g_append_data {| cap := 2; S := (-1); ilb := 3; buf := [7; 7]; fillv := 7 |} [500; 501; 502; 503] = MOk {| cap := 2; S := 3; ilb := 0; buf := [502; 503]; fillv := 7 |}.
+  g_append_data {| cap := 2; S := (-1); ilb := 2; buf := [7; 7]; fillv := 7 |} [500; 501; 502] = MOk {| cap := 2; S := 2; ilb := 0; buf := [501; 502]; fillv := 7 |}.
 Proof. vm_compute. reflexivity. Qed.
 Example selftest_148 :
-  g__invalidate {| cap := 2; S := (-1); ilb := 3; buf := [7; 7]; fillv := 7 |} 2 = MOk {| cap := 2; S := (-1); ilb := 3; buf := [7; 7]; fillv := 7 |}.
+  g__invalidate {| cap := 2; S := (-1); ilb := 2; buf := [7; 7]; fillv := 7 |} 2 = MOk {| cap := 2; S := (-1); ilb := 2; buf := [7; 7]; fillv := 7 |}.
 Proof. vm_compute. reflexivity. Qed.
 Example selftest_149 :
-  g_invalidate_samples {| cap := 2; S := (-1); ilb := 3; buf := [7; 7]; fillv := 7 |} (-2) = MOk {| cap := 2; S := (-2); ilb := 4; buf := [7; 7]; fillv := 7 |}.
+  g_invalidate_samples {| cap := 2; S := (-1); ilb := 2; buf := [7; 7]; fillv := 7 |} 0 = MOk {| cap := 2; S := (-1); ilb := 2; buf := [7; 7]; fillv := 7 |}.
 Proof. vm_compute. reflexivity. Qed.
 Example selftest_150 :
-  g_invalidate {| cap := 2; S := (-1); ilb := 3; buf := [7; 7]; fillv := 7 |} 1 = MOk {| cap := 2; S := (-1); ilb := 3; buf := [7; 7]; fillv := 7 |}.
+  g_invalidate {| cap := 2; S := (-1); ilb := 2; buf := [7; 7]; fillv := 7 |} 1 = MOk {| cap := 2; S := (-1); ilb := 2; buf := [7; 7]; fillv := 7 |}.
 Proof. vm_compute. reflexivity. Qed.
 Example selftest_151 :
-  g_resize {| cap := 2; S := (-1); ilb := 3; buf := [7; 7]; fillv := 7 |} 1 = MRaise EIndexError {| cap := 2; S := (-1); ilb := 3; buf := [7; 7]; fillv := 7 |}.
+  g_resize {| cap := 2; S := (-1); ilb := 2; buf := [7; 7]; fillv := 7 |} 1 = MOk {| cap := 1; S := (-1); ilb := 1; buf := [7]; fillv := 7 |}.
 Proof. vm_compute. reflexivity. Qed.
 Example selftest_152 :
-  g_init 1 (-1) = MOk {| cap := 1; S := 0; ilb := 1; buf := [(-1)]; fillv := (-1) |}.
+  g_init 4 (-1) = MOk {| cap := 4; S := 0; ilb := 4; buf := [(-1); (-1); (-1); (-1)]; fillv := (-1) |}.
 Proof. vm_compute. reflexivity. Qed.
 Example selftest_153 :
-  g_samples_to_index {| cap := 1; S := 0; ilb := 1; buf := [(-1)]; fillv := (-1) |} 2 = 3.
+  g_samples_to_index {| cap := 4; S := 0; ilb := 4; buf := [(-1); (-1); (-1); (-1)]; fillv := (-1) |} (-2) = 2.
 Proof. vm_compute. reflexivity. Qed.
 Example selftest_154 :
-  g_time_to_index {| cap := 1; S := 0; ilb := 1; buf := [(-1)]; fillv := (-1) |} 2 = 3.
+  g_time_to_index {| cap := 4; S := 0; ilb := 4; buf := [(-1); (-1); (-1); (-1)]; fillv := (-1) |} (-2) = 2.
 Proof. vm_compute. reflexivity. Qed.
 Example selftest_155 :
-  g_get_samples_lb {| cap := 1; S := 0; ilb := 1; buf := [(-1)]; fillv := (-1) |} = 0.
+  g_get_samples_lb {| cap := 4; S := 0; ilb := 4; buf := [(-1); (-1); (-1); (-1)]; fillv := (-1) |} = 0.
 Proof. vm_compute. reflexivity. Qed.
 Example selftest_156 :
-  g_get_samples_ub {| cap := 1; S := 0; ilb := 1; buf := [(-1)]; fillv := (-1) |} = 0.
+  g_get_samples_ub {| cap := 4; S := 0; ilb := 4; buf := [(-1); (-1); (-1); (-1)]; fillv := (-1) |} = 0.
 Proof. vm_compute. reflexivity. Qed.
 Example selftest_157 :
-  g_get_range_samples {| cap := 1; S := 0; ilb := 1; buf := [(-1)]; fillv := (-1) |} (Some (-1)) (Some 0) = Raise EIndexError.
+  g_get_range_samples {| cap := 4; S := 0; ilb := 4; buf := [(-1); (-1); (-1); (-1)]; fillv := (-1) |} (Some (-2)) (Some 2) = Raise EIndexError.
 Proof. vm_compute. reflexivity. Qed.
 Example selftest_158 :
-  g_get_range_samples {| cap := 1; S := 0; ilb := 1; buf := [(-1)]; fillv := (-1) |} None (Some 0) = Ret [].
+  g_get_range_samples {| cap := 4; S := 0; ilb := 4; buf := [(-1); (-1); (-1); (-1)]; fillv := (-1) |} None (Some 2) = Raise EIndexError.
 Proof. vm_compute. reflexivity. Qed.
 Example selftest_159 :
-  g_get_range_samples {| cap := 1; S := 0; ilb := 1; buf := [(-1)]; fillv := (-1) |} (Some (-1)) None = Raise EIndexError.
+  g_get_range_samples {| cap := 4; S := 0; ilb := 4; buf := [(-1); (-1); (-1); (-1)]; fillv := (-1) |} (Some (-2)) None = Raise EIndexError.
 Proof. vm_compute. reflexivity. Qed.
 Example selftest_160 :
-  g_get_range_samples {| cap := 1; S := 0; ilb := 1; buf := [(-1)]; fillv := (-1) |} None None = Ret [].
+  g_get_range_samples {| cap := 4; S := 0; ilb := 4; buf := [(-1); (-1); (-1); (-1)]; fillv := (-1) |} None None = Ret [].
 Proof. vm_compute. reflexivity. Qed.
 Example selftest_161 :
-  g_get_range_filled {| cap := 1; S := 0; ilb := 1; buf := [(-1)]; fillv := (-1) |} (-1) 0 9 = Ret [9].
+  g_get_range_filled {| cap := 4; S := 0; ilb := 4; buf := [(-1); (-1); (-1); (-1)]; fillv := (-1) |} (-2) 2 9 = Ret [9; 9; 9; 9].
 Proof. vm_compute. reflexivity. Qed.
 Example selftest_162 :
-  g_get_latest {| cap := 1; S := 0; ilb := 1; buf := [(-1)]; fillv := (-1) |} (-1) 0 None = Raise EIndexError.
+  g_get_latest {| cap := 4; S := 0; ilb := 4; buf := [(-1); (-1); (-1); (-1)]; fillv := (-1) |} (-2) 2 None = Raise EIndexError.
 Proof. vm_compute. reflexivity. Qed.
 Example selftest_163 :
-  g_get_latest {| cap := 1; S := 0; ilb := 1; buf := [(-1)]; fillv := (-1) |} (-1) 0 (Some 9) = Ret [9].
+  g_get_latest {| cap := 4; S := 0; ilb := 4; buf := [(-1); (-1); (-1); (-1)]; fillv := (-1) |} (-2) 2 (Some 9) = Ret [9; 9; 9; 9].
 Proof. vm_compute. reflexivity. Qed.
 Example selftest_164 :
-  g_append_data {| cap := 1; S := 0; ilb := 1; buf := [(-1)]; fillv := (-1) |} [] = MOk {| cap := 1; S := 0; ilb := 1; buf := [(-1)]; fillv := (-1) |}.
+  g_append_data {| cap := 4; S := 0; ilb := 4; buf := [(-1); (-1); (-1); (-1)]; fillv := (-1) |} [] = MOk {| cap := 4; S := 0; ilb := 4; buf := [(-1); (-1); (-1); (-1)]; fillv := (-1) |}.
 Proof. vm_compute. reflexivity. Qed.
 Example selftest_165 :
-  g_append_data {| cap := 1; S := 0; ilb := 1; buf := [(-1)]; fillv := (-1) |} [500] = MOk {| cap := 1; S := 1; ilb := 0; buf := [500]; fillv := (-1) |}.
+  g_append_data {| cap := 4; S := 0; ilb := 4; buf := [(-1); (-1); (-1); (-1)]; fillv := (-1) |} [500; 501] = MOk {| cap := 4; S := 2; ilb := 2; buf := [(-1); (-1); 500; 501]; fillv := (-1) |}.
 Proof. vm_compute. reflexivity. Qed.
 Example selftest_166 :
-  g_append_data {| cap := 1; S := 0; ilb := 1; buf := [(-1)]; fillv := (-1) |} [500; 501; 502] = MOk {| cap := 1; S := 3; ilb := 0; buf := [502]; fillv := (-1) |}.
+  g_append_data {| cap := 4; S := 0; ilb := 4; buf := [(-1); (-1); (-1); (-1)]; fillv := (-1) |} [500; 501; 502; 503; 504; 505] = MOk {| cap := 4; S := 6; ilb := 0; buf := [502; 503; 504; 505]; fillv := (-1) |}.
 Proof. vm_compute. reflexivity. Qed.
 Example selftest_167 :
-  g__invalidate {| cap := 1; S := 0; ilb := 1; buf := [(-1)]; fillv := (-1) |} 2 = MOk {| cap := 1; S := 0; ilb := 0; buf := [(-1)]; fillv := (-1) |}.
+  g__invalidate {| cap := 4; S := 0; ilb := 4; buf := [(-1); (-1); (-1); (-1)]; fillv := (-1) |} 1 = MOk {| cap := 4; S := 0; ilb := 4; buf := [(-1); (-1); (-1); (-1)]; fillv := (-1) |}.
 Proof. vm_compute. reflexivity. Qed.
 Example selftest_168 :
-  g_invalidate_samples {| cap := 1; S := 0; ilb := 1; buf := [(-1)]; fillv := (-1) |} 2 = MOk {| cap := 1; S := 0; ilb := 1; buf := [(-1)]; fillv := (-1) |}.
+  g_invalidate_samples {| cap := 4; S := 0; ilb := 4; buf := [(-1); (-1); (-1); (-1)]; fillv := (-1) |} 1 = MOk {| cap := 4; S := 0; ilb := 4; buf := [(-1); (-1); (-1); (-1)]; fillv := (-1) |}.
 Proof. vm_compute. reflexivity. Qed.
 Example selftest_169 :
-  g_invalidate {| cap := 1; S := 0; ilb := 1; buf := [(-1)]; fillv := (-1) |} 1 = MOk {| cap := 1; S := 0; ilb := 1; buf := [(-1)]; fillv := (-1) |}.
+  g_invalidate {| cap := 4; S := 0; ilb := 4; buf := [(-1); (-1); (-1); (-1)]; fillv := (-1) |} 2 = MOk {| cap := 4; S := 0; ilb := 4; buf := [(-1); (-1); (-1); (-1)]; fillv := (-1) |}.
 Proof. vm_compute. reflexivity. Qed.
 Example selftest_170 :
-  g_resize {| cap := 1; S := 0; ilb := 1; buf := [(-1)]; fillv := (-1) |} 2 = MOk {| cap := 2; S := 0; ilb := 2; buf := [(-1); (-1)]; fillv := (-1) |}.
+  g_resize {| cap := 4; S := 0; ilb := 4; buf := [(-1); (-1); (-1); (-1)]; fillv := (-1) |} 8 = MOk {| cap := 8; S := 0; ilb := 8; buf := [(-1); (-1); (-1); (-1); (-1); (-1); (-1); (-1)]; fillv := (-1) |}.
 Proof. vm_compute. reflexivity. Qed.
 Example selftest_171 :
-  g_init 5 (-1) = MOk {| cap := 5; S := 0; ilb := 5; buf := [(-1); (-1); (-1); (-1); (-1)]; fillv := (-1) |}.
+  g_init 3 7 = MOk {| cap := 3; S := 0; ilb := 3; buf := [7; 7; 7]; fillv := 7 |}.
 Proof. vm_compute. reflexivity. Qed.
 Example selftest_172 :
-  g_samples_to_index {| cap := 5; S := 0; ilb := 5; buf := [(-1); (-1); (-1); (-1); (-1)]; fillv := (-1) |} (-1) = 4.
+  g_samples_to_index {| cap := 1; S := 0; ilb := 1; buf := [7]; fillv := 7 |} (-1) = 0.
 Proof. vm_compute. reflexivity. Qed.
 Example selftest_173 :
-  g_time_to_index {| cap := 5; S := 0; ilb := 5; buf := [(-1); (-1); (-1); (-1); (-1)]; fillv := (-1) |} (-1) = 4.
+  g_time_to_index {| cap := 1; S := 0; ilb := 1; buf := [7]; fillv := 7 |} (-1) = 0.
 Proof. vm_compute. reflexivity. Qed.
 Example selftest_174 :
-  g_get_samples_lb {| cap := 5; S := 0; ilb := 5; buf := [(-1); (-1); (-1); (-1); (-1)]; fillv := (-1) |} = 0.
+  g_get_samples_lb {| cap := 1; S := 0; ilb := 1; buf := [7]; fillv := 7 |} = 0.
 Proof. vm_compute. reflexivity. Qed.
 Example selftest_175 :
-  g_get_samples_ub {| cap := 5; S := 0; ilb := 5; buf := [(-1); (-1); (-1); (-1); (-1)]; fillv := (-1) |} = 0.
+  g_get_samples_ub {| cap := 1; S := 0; ilb := 1; buf := [7]; fillv := 7 |} = 0.
 Proof. vm_compute. reflexivity. Qed.
 Example selftest_176 :
-  g_get_range_samples {| cap := 5; S := 0; ilb := 5; buf := [(-1); (-1); (-1); (-1); (-1)]; fillv := (-1) |} (Some (-1)) (Some 1) = Raise EIndexError.
+  g_get_range_samples {| cap := 1; S := 0; ilb := 1; buf := [7]; fillv := 7 |} (Some (-1)) (Some 1) = Raise EIndexError.
 Proof. vm_compute. reflexivity. Qed.
 Example selftest_177 :
-  g_get_range_samples {| cap := 5; S := 0; ilb := 5; buf := [(-1); (-1); (-1); (-1); (-1)]; fillv := (-1) |} None (Some 1) = Raise EIndexError.
+  g_get_range_samples {| cap := 1; S := 0; ilb := 1; buf := [7]; fillv := 7 |} None (Some 1) = Raise EIndexError.
 Proof. vm_compute. reflexivity. Qed.
 Example selftest_178 :
-  g_get_range_samples {| cap := 5; S := 0; ilb := 5; buf := [(-1); (-1); (-1); (-1); (-1)]; fillv := (-1) |} (Some (-1)) None = Raise EIndexError.
+  g_get_range_samples {| cap := 1; S := 0; ilb := 1; buf := [7]; fillv := 7 |} (Some (-1)) None = Raise EIndexError.
 Proof. vm_compute. reflexivity. Qed.
 Example selftest_179 :
-  g_get_range_samples {| cap := 5; S := 0; ilb := 5; buf := [(-1); (-1); (-1); (-1); (-1)]; fillv := (-1) |} None None = Ret [].
+  g_get_range_samples {| cap := 1; S := 0; ilb := 1; buf := [7]; fillv := 7 |} None None = Ret [].
 Proof. vm_compute. reflexivity. Qed.
 Example selftest_180 :
-  g_get_range_filled {| cap := 5; S := 0; ilb := 5; buf := [(-1); (-1); (-1); (-1); (-1)]; fillv := (-1) |} (-1) 1 9 = Ret [9; 9].
+  g_get_range_filled {| cap := 1; S := 0; ilb := 1; buf := [7]; fillv := 7 |} (-1) 1 9 = Ret [9; 9].
 Proof. vm_compute. reflexivity. Qed.
 Example selftest_181 :
-  g_get_latest {| cap := 5; S := 0; ilb := 5; buf := [(-1); (-1); (-1); (-1); (-1)]; fillv := (-1) |} (-1) 1 None = Raise EIndexError.
+  g_get_latest {| cap := 1; S := 0; ilb := 1; buf := [7]; fillv := 7 |} (-1) 1 None = Raise EIndexError.
 Proof. vm_compute. reflexivity. Qed.
 Example selftest_182 :
-  g_get_latest {| cap := 5; S := 0; ilb := 5; buf := [(-1); (-1); (-1); (-1); (-1)]; fillv := (-1) |} (-1) 1 (Some 9) = Ret [9; 9].
+  g_get_latest {| cap := 1; S := 0; ilb := 1; buf := [7]; fillv := 7 |} (-1) 1 (Some 9) = Ret [9; 9].
 Proof. vm_compute. reflexivity. Qed.
 Example selftest_183 :
-  g_append_data {| cap := 5; S := 0; ilb := 5; buf := [(-1); (-1); (-1); (-1); (-1)]; fillv := (-1) |} [] = MOk {| cap := 5; S := 0; ilb := 5; buf := [(-1); (-1); (-1); (-1); (-1)]; fillv := (-1) |}.
+  g_append_data {| cap := 1; S := 0; ilb := 1; buf := [7]; fillv := 7 |} [] = MOk {| cap := 1; S := 0; ilb := 1; buf := [7]; fillv := 7 |}.
 Proof. vm_compute. reflexivity. Qed.
 Example selftest_184 :
-  g_append_data {| cap := 5; S := 0; ilb := 5; buf := [(-1); (-1); (-1); (-1); (-1)]; fillv := (-1) |} [500; 501; 502; 503; 504] = MOk {| cap := 5; S := 5; ilb := 0; buf := [500; 501; 502; 503; 504]; fillv := (-1) |}.
+  g_append_data {| cap := 1; S := 0; ilb := 1; buf := [7]; fillv := 7 |} [500] = MOk {| cap := 1; S := 1; ilb := 0; buf := [500]; fillv := 7 |}.
 Proof. vm_compute. reflexivity. Qed.
 Example selftest_185 :
-  g_append_data {| cap := 5; S := 0; ilb := 5; buf := [(-1); (-1); (-1); (-1); (-1)]; fillv := (-1) |} [500; 501; 502; 503; 504; 505] = MOk {| cap := 5; S := 6; ilb := 0; buf := [501; 502; 503; 504; 505]; fillv := (-1) |}.
+  g_append_data {| cap := 1; S := 0; ilb := 1; buf := [7]; fillv := 7 |} [500; 501; 502] = MOk {| cap := 1; S := 3; ilb := 0; buf := [502]; fillv := 7 |}.
 Proof. vm_compute. reflexivity. Qed.
 Example selftest_186 :
-  g__invalidate {| cap := 5; S := 0; ilb := 5; buf := [(-1); (-1); (-1); (-1); (-1)]; fillv := (-1) |} 3 = MOk {| cap := 5; S := 0; ilb := 7; buf := [(-1); (-1); (-1); (-1); (-1)]; fillv := (-1) |}.
+  g__invalidate {| cap := 1; S := 0; ilb := 1; buf := [7]; fillv := 7 |} 0 = MOk {| cap := 1; S := 0; ilb := 1; buf := [7]; fillv := 7 |}.
 Proof. vm_compute. reflexivity. Qed.
 Example selftest_187 :
-  g_invalidate_samples {| cap := 5; S := 0; ilb := 5; buf := [(-1); (-1); (-1); (-1); (-1)]; fillv := (-1) |} (-1) = MOk {| cap := 5; S := (-1); ilb := 6; buf := [(-1); (-1); (-1); (-1); (-1)]; fillv := (-1) |}.
+  g_invalidate_samples {| cap := 1; S := 0; ilb := 1; buf := [7]; fillv := 7 |} (-1) = MOk {| cap := 1; S := (-1); ilb := 1; buf := [7]; fillv := 7 |}.
 Proof. vm_compute. reflexivity. Qed.
 Example selftest_188 :
-  g_invalidate {| cap := 5; S := 0; ilb := 5; buf := [(-1); (-1); (-1); (-1); (-1)]; fillv := (-1) |} (-1) = MOk {| cap := 5; S := (-1); ilb := 6; buf := [(-1); (-1); (-1); (-1); (-1)]; fillv := (-1) |}.
+  g_invalidate {| cap := 1; S := 0; ilb := 1; buf := [7]; fillv := 7 |} (-2) = MOk {| cap := 1; S := (-2); ilb := 1; buf := [7]; fillv := 7 |}.
 Proof. vm_compute. reflexivity. Qed.
 Example selftest_189 :
-  g_resize {| cap := 5; S := 0; ilb := 5; buf := [(-1); (-1); (-1); (-1); (-1)]; fillv := (-1) |} 1 = MOk {| cap := 1; S := 0; ilb := 1; buf := [(-1)]; fillv := (-1) |}.
+  g_resize {| cap := 1; S := 0; ilb := 1; buf := [7]; fillv := 7 |} 1 = MOk {| cap := 1; S := 0; ilb := 1; buf := [7]; fillv := 7 |}.
 Proof. vm_compute. reflexivity. Qed.
 Example selftest_190 :
-  g_init 1 0 = MOk {| cap := 1; S := 0; ilb := 1; buf := [0]; fillv := 0 |}.
+  g_init 3 0 = MOk {| cap := 3; S := 0; ilb := 3; buf := [0; 0; 0]; fillv := 0 |}.
 Proof. vm_compute. reflexivity. Qed.
 Example selftest_191 :
-  g_samples_to_index {| cap := 1; S := 6; ilb := 0; buf := [53]; fillv := 0 |} 4 = (-1).
+  g_samples_to_index {| cap := 3; S := 6; ilb := 0; buf := [51; 52; 53]; fillv := 0 |} 2 = (-1).
 Proof. vm_compute. reflexivity. Qed.
 Example selftest_192 :
-  g_time_to_index {| cap := 1; S := 6; ilb := 0; buf := [53]; fillv := 0 |} 4 = (-1).
+  g_time_to_index {| cap := 3; S := 6; ilb := 0; buf := [51; 52; 53]; fillv := 0 |} 2 = (-1).
 Proof. vm_compute. reflexivity. Qed.
 Example selftest_193 :
-  g_get_samples_lb {| cap := 1; S := 6; ilb := 0; buf := [53]; fillv := 0 |} = 5.
+  g_get_samples_lb {| cap := 3; S := 6; ilb := 0; buf := [51; 52; 53]; fillv := 0 |} = 3.
 Proof. vm_compute. reflexivity. Qed.
 Example selftest_194 :
-  g_get_samples_ub {| cap := 1; S := 6; ilb := 0; buf := [53]; fillv := 0 |} = 6.
+  g_get_samples_ub {| cap := 3; S := 6; ilb := 0; buf := [51; 52; 53]; fillv := 0 |} = 6.
 Proof. vm_compute. reflexivity. Qed.
 Example selftest_195 :
-  g_get_range_samples {| cap := 1; S := 6; ilb := 0; buf := [53]; fillv := 0 |} (Some 5) (Some 3) = Ret [].
+  g_get_range_samples {| cap := 3; S := 6; ilb := 0; buf := [51; 52; 53]; fillv := 0 |} (Some 3) (Some 6) = Ret [51; 52; 53].
 Proof. vm_compute. reflexivity. Qed.
 Example selftest_196 :
-  g_get_range_samples {| cap := 1; S := 6; ilb := 0; buf := [53]; fillv := 0 |} None (Some 3) = Ret [].
+  g_get_range_samples {| cap := 3; S := 6; ilb := 0; buf := [51; 52; 53]; fillv := 0 |} None (Some 6) = Ret [51; 52; 53].
 Proof. vm_compute. reflexivity. Qed.
 Example selftest_197 :
-  g_get_range_samples {| cap := 1; S := 6; ilb := 0; buf := [53]; fillv := 0 |} (Some 5) None = Ret [53].
+  g_get_range_samples {| cap := 3; S := 6; ilb := 0; buf := [51; 52; 53]; fillv := 0 |} (Some 3) None = Ret [51; 52; 53].
 Proof. vm_compute. reflexivity. Qed.
 Example selftest_198 :
-  g_get_range_samples {| cap := 1; S := 6; ilb := 0; buf := [53]; fillv := 0 |} None None = Ret [53].
+  g_get_range_samples {| cap := 3; S := 6; ilb := 0; buf := [51; 52; 53]; fillv := 0 |} None None = Ret [51; 52; 53].
 Proof. vm_compute. reflexivity. Qed.
 Example selftest_199 :
-  g_get_range_filled {| cap := 1; S := 6; ilb := 0; buf := [53]; fillv := 0 |} 5 3 9 = Raise EValueError.
+  g_get_range_filled {| cap := 3; S := 6; ilb := 0; buf := [51; 52; 53]; fillv := 0 |} 3 6 9 = Ret [51; 52; 53].
 Proof. vm_compute. reflexivity. Qed.
 Example selftest_200 :
-  g_get_latest {| cap := 1; S := 6; ilb := 0; buf := [53]; fillv := 0 |} (-1) (-3) None = Ret [].
+  g_get_latest {| cap := 3; S := 6; ilb := 0; buf := [51; 52; 53]; fillv := 0 |} (-3) 0 None = Ret [51; 52; 53].
 Proof. vm_compute. reflexivity. Qed.
 Example selftest_201 :
-  g_get_latest {| cap := 1; S := 6; ilb := 0; buf := [53]; fillv := 0 |} (-1) (-3) (Some 9) = Raise EValueError.
+  g_get_latest {| cap := 3; S := 6; ilb := 0; buf := [51; 52; 53]; fillv := 0 |} (-3) 0 (Some 9) = Ret [51; 52; 53].
 Proof. vm_compute. reflexivity. Qed.
 Example selftest_202 :
-  g_append_data {| cap := 1; S := 6; ilb := 0; buf := [53]; fillv := 0 |} [] = MOk {| cap := 1; S := 6; ilb := 0; buf := [53]; fillv := 0 |}.
+  g_append_data {| cap := 3; S := 6; ilb := 0; buf := [51; 52; 53]; fillv := 0 |} [] = MOk {| cap := 3; S := 6; ilb := 0; buf := [51; 52; 53]; fillv := 0 |}.
 Proof. vm_compute. reflexivity. Qed.
 Example selftest_203 :
-  g_append_data {| cap := 1; S := 6; ilb := 0; buf := [53]; fillv := 0 |} [500] = MOk {| cap := 1; S := 7; ilb := 0; buf := [500]; fillv := 0 |}.
+  g_append_data {| cap := 3; S := 6; ilb := 0; buf := [51; 52; 53]; fillv := 0 |} [500; 501] = MOk {| cap := 3; S := 8; ilb := 0; buf := [53; 500; 501]; fillv := 0 |}.
 Proof. vm_compute. reflexivity. Qed.
 Example selftest_204 :
-  g_append_data {| cap := 1; S := 6; ilb := 0; buf := [53]; fillv := 0 |} [500; 501; 502] = MOk {| cap := 1; S := 9; ilb := 0; buf := [502]; fillv := 0 |}.
+  g_append_data {| cap := 3; S := 6; ilb := 0; buf := [51; 52; 53]; fillv := 0 |} [500; 501; 502; 503] = MOk {| cap := 3; S := 10; ilb := 0; buf := [501; 502; 503]; fillv := 0 |}.
 Proof. vm_compute. reflexivity. Qed.
 Example selftest_205 :
-  g__invalidate {| cap := 1; S := 6; ilb := 0; buf := [53]; fillv := 0 |} 0 = MOk {| cap := 1; S := 6; ilb := 1; buf := [0]; fillv := 0 |}.
+  g__invalidate {| cap := 3; S := 6; ilb := 0; buf := [51; 52; 53]; fillv := 0 |} 3 = MOk {| cap := 3; S := 6; ilb := 0; buf := [51; 52; 53]; fillv := 0 |}.
 Proof. vm_compute. reflexivity. Qed.
 Example selftest_206 :
-  g_invalidate_samples {| cap := 1; S := 6; ilb := 0; buf := [53]; fillv := 0 |} 7 = MOk {| cap := 1; S := 6; ilb := 0; buf := [53]; fillv := 0 |}.
+  g_invalidate_samples {| cap := 3; S := 6; ilb := 0; buf := [51; 52; 53]; fillv := 0 |} 1 = MOk {| cap := 3; S := 1; ilb := 3; buf := [0; 0; 0]; fillv := 0 |}.
 Proof. vm_compute. reflexivity. Qed.
 Example selftest_207 :
-  g_invalidate {| cap := 1; S := 6; ilb := 0; buf := [53]; fillv := 0 |} 3 = MOk {| cap := 1; S := 3; ilb := 1; buf := [0]; fillv := 0 |}.
+  g_invalidate {| cap := 3; S := 6; ilb := 0; buf := [51; 52; 53]; fillv := 0 |} 1 = MOk {| cap := 3; S := 1; ilb := 3; buf := [0; 0; 0]; fillv := 0 |}.
 Proof. vm_compute. reflexivity. Qed.
 Example selftest_208 :
-  g_resize {| cap := 1; S := 6; ilb := 0; buf := [53]; fillv := 0 |} 1 = MOk {| cap := 1; S := 6; ilb := 0; buf := [53]; fillv := 0 |}.
+  g_resize {| cap := 3; S := 6; ilb := 0; buf := [51; 52; 53]; fillv := 0 |} 4 = MOk {| cap := 4; S := 6; ilb := 1; buf := [0; 51; 52; 53]; fillv := 0 |}.
 Proof. vm_compute. reflexivity. Qed.
 Example selftest_209 :
-  g_init 4 0 = MOk {| cap := 4; S := 0; ilb := 4; buf := [0; 0; 0; 0]; fillv := 0 |}.
+  g_init 3 7 = MOk {| cap := 3; S := 0; ilb := 3; buf := [7; 7; 7]; fillv := 7 |}.
 Proof. vm_compute. reflexivity. Qed.
 Example selftest_210 :
-  g_samples_to_index {| cap := 1; S := 1; ilb := 0; buf := [54]; fillv := 0 |} 1 = 1.
+  g_samples_to_index {| cap := 1; S := 1; ilb := 0; buf := [54]; fillv := 7 |} 1 = 1.
 Proof. vm_compute. reflexivity. Qed.
 Example selftest_211 :
-  g_time_to_index {| cap := 1; S := 1; ilb := 0; buf := [54]; fillv := 0 |} 1 = 1.
+  g_time_to_index {| cap := 1; S := 1; ilb := 0; buf := [54]; fillv := 7 |} 1 = 1.
 Proof. vm_compute. reflexivity. Qed.
 Example selftest_212 :
-  g_get_samples_lb {| cap := 1; S := 1; ilb := 0; buf := [54]; fillv := 0 |} = 0.
+  g_get_samples_lb {| cap := 1; S := 1; ilb := 0; buf := [54]; fillv := 7 |} = 0.
 Proof. vm_compute. reflexivity. Qed.
 Example selftest_213 :
-  g_get_samples_ub {| cap := 1; S := 1; ilb := 0; buf := [54]; fillv := 0 |} = 1.
+  g_get_samples_ub {| cap := 1; S := 1; ilb := 0; buf := [54]; fillv := 7 |} = 1.
 Proof. vm_compute. reflexivity. Qed.
 Example selftest_214 :
-  g_get_range_samples {| cap := 1; S := 1; ilb := 0; buf := [54]; fillv := 0 |} (Some (-2)) (Some 3) = Raise EIndexError.
+  g_get_range_samples {| cap := 1; S := 1; ilb := 0; buf := [54]; fillv := 7 |} (Some (-2)) (Some 3) = Raise EIndexError.
 Proof. vm_compute. reflexivity. Qed.
 Example selftest_215 :
-  g_get_range_samples {| cap := 1; S := 1; ilb := 0; buf := [54]; fillv := 0 |} None (Some 3) = Raise EIndexError.
+  g_get_range_samples {| cap := 1; S := 1; ilb := 0; buf := [54]; fillv := 7 |} None (Some 3) = Raise EIndexError.
 Proof. vm_compute. reflexivity. Qed.
 Example selftest_216 :
-  g_get_range_samples {| cap := 1; S := 1; ilb := 0; buf := [54]; fillv := 0 |} (Some (-2)) None = Raise EIndexError.
+  g_get_range_samples {| cap := 1; S := 1; ilb := 0; buf := [54]; fillv := 7 |} (Some (-2)) None = Raise EIndexError.
 Proof. vm_compute. reflexivity. Qed.
 Example selftest_217 :
-  g_get_range_samples {| cap := 1; S := 1; ilb := 0; buf := [54]; fillv := 0 |} None None = Ret [54].
+  g_get_range_samples {| cap := 1; S := 1; ilb := 0; buf := [54]; fillv := 7 |} None None = Ret [54].
 Proof. vm_compute. reflexivity. Qed.
 Example selftest_218 :
-  g_get_range_filled {| cap := 1; S := 1; ilb := 0; buf := [54]; fillv := 0 |} (-2) 3 9 = Ret [9; 9; 54; 9; 9].
+  g_get_range_filled {| cap := 1; S := 1; ilb := 0; buf := [54]; fillv := 7 |} (-2) 3 9 = Ret [9; 9; 54; 9; 9].
 Proof. vm_compute. reflexivity. Qed.
 Example selftest_219 :
-  g_get_latest {| cap := 1; S := 1; ilb := 0; buf := [54]; fillv := 0 |} (-3) 2 None = Raise EIndexError.
+  g_get_latest {| cap := 1; S := 1; ilb := 0; buf := [54]; fillv := 7 |} (-3) 2 None = Raise EIndexError.
 Proof. vm_compute. reflexivity. Qed.
 Example selftest_220 :
-  g_get_latest {| cap := 1; S := 1; ilb := 0; buf := [54]; fillv := 0 |} (-3) 2 (Some 9) = Ret [9; 9; 54; 9; 9].
+  g_get_latest {| cap := 1; S := 1; ilb := 0; buf := [54]; fillv := 7 |} (-3) 2 (Some 9) = Ret [9; 9; 54; 9; 9].
 Proof. vm_compute. reflexivity. Qed.
 Example selftest_221 :
-  g_append_data {| cap := 1; S := 1; ilb := 0; buf := [54]; fillv := 0 |} [] = MOk {| cap := 1; S := 1; ilb := 0; buf := [54]; fillv := 0 |}.
+  g_append_data {| cap := 1; S := 1; ilb := 0; buf := [54]; fillv := 7 |} [] = MOk {| cap := 1; S := 1; ilb := 0; buf := [54]; fillv := 7 |}.
 Proof. vm_compute. reflexivity. Qed.
 Example selftest_222 :
-  g_append_data {| cap := 1; S := 1; ilb := 0; buf := [54]; fillv := 0 |} [500] = MOk {| cap := 1; S := 2; ilb := 0; buf := [500]; fillv := 0 |}.
+  g_append_data {| cap := 1; S := 1; ilb := 0; buf := [54]; fillv := 7 |} [500] = MOk {| cap := 1; S := 2; ilb := 0; buf := [500]; fillv := 7 |}.
 Proof. vm_compute. reflexivity. Qed.
 Example selftest_223 :
-  g_append_data {| cap := 1; S := 1; ilb := 0; buf := [54]; fillv := 0 |} [500; 501] = MOk {| cap := 1; S := 3; ilb := 0; buf := [501]; fillv := 0 |}.
+  g_append_data {| cap := 1; S := 1; ilb := 0; buf := [54]; fillv := 7 |} [500; 501] = MOk {| cap := 1; S := 3; ilb := 0; buf := [501]; fillv := 7 |}.
 Proof. vm_compute. reflexivity. Qed.
 Example selftest_224 :
-  g__invalidate {| cap := 1; S := 1; ilb := 0; buf := [54]; fillv := 0 |} (-1) = MOk {| cap := 1; S := 1; ilb := 1; buf := [0]; fillv := 0 |}.
+  g__invalidate {| cap := 1; S := 1; ilb := 0; buf := [54]; fillv := 7 |} (-1) = MOk {| cap := 1; S := 1; ilb := 1; buf := [7]; fillv := 7 |}.
 Proof. vm_compute. reflexivity. Qed.
 Example selftest_225 :
-  g_invalidate_samples {| cap := 1; S := 1; ilb := 0; buf := [54]; fillv := 0 |} 1 = MOk {| cap := 1; S := 1; ilb := 0; buf := [54]; fillv := 0 |}.
+  g_invalidate_samples {| cap := 1; S := 1; ilb := 0; buf := [54]; fillv := 7 |} 1 = MOk {| cap := 1; S := 1; ilb := 0; buf := [54]; fillv := 7 |}.
 Proof. vm_compute. reflexivity. Qed.
 Example selftest_226 :
-  g_invalidate {| cap := 1; S := 1; ilb := 0; buf := [54]; fillv := 0 |} 2 = MOk {| cap := 1; S := 1; ilb := 0; buf := [54]; fillv := 0 |}.
+  g_invalidate {| cap := 1; S := 1; ilb := 0; buf := [54]; fillv := 7 |} 2 = MOk {| cap := 1; S := 1; ilb := 0; buf := [54]; fillv := 7 |}.
 Proof. vm_compute. reflexivity. Qed.
 Example selftest_227 :
-  g_resize {| cap := 1; S := 1; ilb := 0; buf := [54]; fillv := 0 |} 2 = MOk {| cap := 2; S := 1; ilb := 1; buf := [0; 54]; fillv := 0 |}.
+  g_resize {| cap := 1; S := 1; ilb := 0; buf := [54]; fillv := 7 |} 2 = MOk {| cap := 2; S := 1; ilb := 1; buf := [7; 54]; fillv := 7 |}.
 Proof. vm_compute. reflexivity. Qed.
 Example selftest_228 :
   g_init 1 7 = MOk {| cap := 1; S := 0; ilb := 1; buf := [7]; fillv := 7 |}.
